@@ -33,10 +33,20 @@ import (
 	"verifharness/core"
 )
 
+// longWait bounds waits for something that MUST happen (a pushed notification arrives, the RPC round trip after a
+// burst comes back, Stop terminates).  A notification crosses a TCP connection and four goroutines; on a starved
+// machine that takes seconds, so the limit is generous: it is never reached on a correct client and only costs time on a
+// failing run (bounded by brokenCases below).  shortWait confirms "nothing arrives" when nothing was sent.
 const (
-	longWait  = 3 * time.Second
+	longWait  = 30 * time.Second
 	shortWait = 6 * time.Millisecond
 )
+
+// brokenCases counts cases in which an oracle violation was reported.  After a few of them the run is decided and the
+// remaining cases use short waits (a broken client would otherwise cost one longWait per case).
+var brokenCases int
+
+const decidedWait = 1 * time.Second
 
 type engine struct{}
 
@@ -207,6 +217,12 @@ func (r *runner) Close() {
 		select {
 		case <-done:
 		case <-time.After(r.long()):
+			// no violation can be reported from Close; a client that does not shut down must still not cost longWait
+			// in every case
+			if !r.broken {
+				r.broken = true
+				brokenCases++
+			}
 		}
 	}
 	if r.f != nil {
@@ -217,12 +233,18 @@ func (r *runner) Close() {
 
 func (r *runner) v(key, format string, a ...interface{}) {
 	r.viol = append(r.viol, "C18 key=btcd-handler."+key+": "+fmt.Sprintf(format, a...))
-	r.broken = true
+	if !r.broken {
+		r.broken = true
+		brokenCases++
+	}
 }
 
 func (r *runner) long() time.Duration {
 	if r.broken {
 		return 100 * time.Millisecond
+	}
+	if brokenCases >= 3 {
+		return decidedWait
 	}
 	return longWait
 }
